@@ -138,6 +138,29 @@ def check_two_res(case):
     return v[:1], 'ok' if not v else 'violated', True
 
 
+def check_reorder_then(case):
+    """select_fields in another order than the columns (the schema is reordered, the row dicts keep their key order), then a
+    field-level step: values must stay with their names."""
+    df = core.dataflows
+    fields = ['a', 'b', 'c']
+    rows = table(fields)
+    st, other = state(fields, rows)
+    then = case['then']
+    second, exp_fields, conv = {
+        'rename': (lambda: df.rename_fields({'a': 'x'}, resources='t'), ['c', 'x', 'b'], lambda r: {'c': r['c'], 'x': r['a'], 'b': r['b']}),
+        'rename2': (lambda: df.rename_fields({'c': 'z', 'b': 'y'}, resources='t'), ['z', 'a', 'y'], lambda r: {'z': r['c'], 'a': r['a'], 'y': r['b']}),
+        'find_replace': (lambda: df.find_replace([{'name': 'b', 'patterns': [{'find': '/', 'replace': '|'}]}], resources='t'), ['c', 'a', 'b'],
+                         lambda r: {'c': r['c'], 'a': r['a'], 'b': r['b'].replace('/', '|')}),
+        'delete': (lambda: df.delete_fields(['a'], resources='t'), ['c', 'b'], lambda r: {'c': r['c'], 'b': r['b']}),
+    }[then]
+    label = "select_fields(['c', 'a', 'b']) then %s" % then
+    kind, out = run_step(st, core.Flow(df.select_fields(['c', 'a', 'b'], resources='t'), second()))
+    if kind == 'exc':
+        return [('raises/reorder-then-%s' % then, '%s raises %s: %s' % (label, core.exc_sig(out), str(out)[:100]))], 'violated', True
+    v = base_checks(label, 'reorder-then-%s' % then, out, other, exp_fields, [conv(r) for r in rows])
+    return v, 'ok' if not v else 'violated', True
+
+
 def check_select(case):
     fields, req, regex = case['fields'], case['req'], case['regex']
     rows = table(fields)
@@ -482,6 +505,8 @@ def cases(tier):
     for n in (1, 2):
         for vals in itertools.product(itertools.product(NUMV, repeat=2), repeat=n):
             out.append({'proc': 'computed_chain', 'vals': [list(v) for v in vals]})
+    for then in ('rename', 'rename2', 'find_replace', 'delete'):
+        out.append({'proc': 'reorder_then', 'then': then})
     for what in ('select', 'select_regex', 'delete', 'rename'):
         for eager in (False, True):
             out.append({'proc': 'two_res', 'what': what, 'eager': eager})
